@@ -563,6 +563,35 @@ class Folder:
                 raise FoldRaise(type(ex).__name__, str(ex))
         if isinstance(e, ast.Call):
             return self._call(e, env, mod, ci)
+        if isinstance(e, (ast.ListComp, ast.SetComp, ast.GeneratorExp, ast.DictComp)) and self.allow_loops:
+            out = []
+
+            def rec(gi, env2):
+                if gi == len(e.generators):
+                    if isinstance(e, ast.DictComp):
+                        out.append((self._eval(e.key, env2, mod, ci), self._eval(e.value, env2, mod, ci)))
+                    else:
+                        out.append(self._eval(e.elt, env2, mod, ci))
+                    return
+                g = e.generators[gi]
+                it = self._eval(g.iter, env2, mod, ci)
+                if isinstance(it, ClsRef) and it.cls.is_enum:
+                    it = [EV(it.cls, n, v) for n, v in it.cls.enum_members().items()]
+                if isinstance(it, dict):
+                    it = list(it)
+                if not isinstance(it, (list, tuple, range, str, frozenset, set)):
+                    raise Unsupported('comprehension over ' + type(it).__name__)
+                for x in (sorted(it, key=repr) if isinstance(it, (set, frozenset)) else it):
+                    env3 = dict(env2)
+                    self._assign(g.target, x, env3)
+                    if all(self._truth(self._eval(c, env3, mod, ci)) for c in g.ifs):
+                        rec(gi + 1, env3)
+            rec(0, dict(env))
+            if isinstance(e, ast.SetComp):
+                return frozenset(out)
+            if isinstance(e, ast.DictComp):
+                return dict(out)
+            return out
         raise Unsupported(f'expression {type(e).__name__}')
 
     def _attr_or_prop(self, obj, name):
@@ -596,6 +625,10 @@ class Folder:
                 return self._int(args[0])
             if n == 'len':
                 return len(args[0])
+            if n == 'set':
+                return frozenset(args[0]) if args else frozenset()
+            if n == 'sorted':
+                return sorted(args[0], key=repr)
             if n == 'abs':
                 return abs(args[0])
             if n == 'bool':
